@@ -89,7 +89,7 @@ pub fn check(case: &SemCase, st: &mut Stats, ex: &Excl) -> Result<(), String> {
 }
 
 pub fn run(ctx: &mut RunCtx) -> i32 {
-    let cases = ctx.cases(24_000, 1_000_000);
+    let cases = ctx.cases(48_000, 1_000_000);
     let (excl, known_seen) = super::activate_exclusions(ctx, "C13");
     let (stats, failures, aborted) = pbt::run_sharded(
         ctx.seed,
